@@ -39,7 +39,7 @@ type Call struct {
 }
 
 type Fault struct {
-	Mode string `json:"mode"` // before | after | write | late (deliver j, close, linger, then report the error)
+	Mode string `json:"mode"` // before | after | write | late (deliver j, close, linger, then report the error) | delay (slow, no failure)
 	J    int    `json:"j"`
 }
 
@@ -59,8 +59,18 @@ func newFStore(inner storage.Store, sched map[string]Fault) *fstore {
 	return &fstore{inner: inner, count: map[string]int{}, sched: sched}
 }
 
-// next registers a driver call and returns the schedule entry it consumes (nil = ok).
+// next registers a driver call and returns the failure entry it consumes (nil = ok).  An entry of mode "delay" is
+// not a failure: the call is merely slow (it lets a concurrent twin call finish first).
 func (s *fstore) next(kind, graph, method string) *Fault {
+	f := s.next0(kind, graph, method)
+	if f != nil && f.Mode == "delay" {
+		time.Sleep(8 * time.Millisecond)
+		return nil
+	}
+	return f
+}
+
+func (s *fstore) next0(kind, graph, method string) *Fault {
 	s.mu.Lock()
 	defer s.mu.Unlock()
 	k := kind + "|" + graph
@@ -254,7 +264,8 @@ type Run struct {
 	After   map[string][]VTriple `json:"after"`
 	GorDiff int                  `json:"goroutines_left"`
 	Millis  int64                `json:"ms"`
-	Memo    bool                 `json:"memo,omitempty"` // executed through memoization.New(failing driver)
+	Memo    bool                 `json:"memo,omitempty"`  // executed through memoization.New(failing driver)
+	Procs   int                  `json:"procs,omitempty"` // executed under this GOMAXPROCS (0 = default)
 }
 type SchedEntry struct {
 	Call
@@ -339,6 +350,17 @@ var coverage = []struct {
 
 const coverageData = `INSERT DATA INTO ?a { /u<a> "p"@[] /u<b> . /u<a> "p"@[] /t<c> . /u<b> "p"@[] /u<b> . /t<c> "p"@[] /u<b> . /u<b> "q"@[] /t<c> . /t<c> "q"@[] /u<b> . /u<a> "q"@[] /u<b> };`
 
+// LIMIT that the planner pushes down to the driver (single clause, no GROUP BY / HAVING) and one it must not push down
+var limitShapes = []struct {
+	text string
+	ins  []string
+}{
+	{`SELECT ?p, ?o FROM ?a WHERE { /u<a> ?p ?o } LIMIT "2"^^type:int64;`, []string{"?a"}},
+	{`SELECT ?s, ?p, ?o FROM ?a WHERE { ?s ?p ?o } LIMIT "2"^^type:int64;`, []string{"?a"}},
+	{`SELECT ?s, ?o FROM ?a WHERE { ?s "p"@[] ?o } LIMIT "1"^^type:int64;`, []string{"?a"}},
+	{`SELECT ?s, ?o FROM ?a WHERE { ?s "p"@[] ?o } ORDER BY ?s LIMIT "2"^^type:int64;`, []string{"?a"}},
+}
+
 var fixedSelects = []struct {
 	text string
 	ins  []string
@@ -388,6 +410,8 @@ func main() {
 		}
 		var s VStmt
 		fixedBulk := 0
+		var extraModes []Fault
+		twins := false
 		switch {
 		case *only == "" && i < len(coverage):
 			prefix = append(prefix, coverageData)
@@ -421,6 +445,37 @@ func main() {
 			}
 			s = VStmt{Kind: kind, Gs: gs, Ts: ts, Text: kw + strings.Join(gs, ", ") + " { " + strings.Join(tt, " . ") + " };"}
 			fixedBulk = []int{0, 1, 2, 2}[k]
+		case *only == "" && i <= len(coverage)+len(pool)+3+len(limitShapes):
+			// a pushed-down LIMIT: the lookup delivers LIMIT or more elements and THEN fails
+			prefix = append(prefix, coverageData)
+			f := limitShapes[i-len(coverage)-len(pool)-4]
+			s = VStmt{Kind: "select", Ins: f.ins, Vars: []string{"?s"}, WB: []string{"?s"}, Text: f.text}
+			extraModes = []Fault{{Mode: "after", J: 2}, {Mode: "after", J: 3}, {Mode: "late", J: 2}, {Mode: "late", J: 3}}
+		case *only == "" && i <= len(coverage)+len(pool)+3+len(limitShapes)+3:
+			// the same target graph listed twice: two writer goroutines for one graph name
+			prefix = append(prefix, coverageData)
+			k := i - len(coverage) - len(pool) - 3 - len(limitShapes)
+			twins = true
+			switch k {
+			case 1, 2:
+				var ts []VTriple
+				var tt []string
+				for len(ts) < 3 {
+					t := g.DataTriple()
+					ts = append(ts, t)
+					tt = append(tt, b.TripleText(t))
+				}
+				kind, kw := "insert", "INSERT DATA INTO "
+				if k == 2 {
+					kind, kw = "delete", "DELETE DATA FROM "
+				}
+				s = VStmt{Kind: kind, Gs: []string{"?a", "?a"}, Ts: ts, Text: kw + "?a, ?a { " + strings.Join(tt, " . ") + " };"}
+			default:
+				s = pool[4] // CONSTRUCT { ?s "p2"@[] ?o } INTO ?b FROM ?a WHERE { ?s "p"@[] ?o }
+				s.Outs = []string{"?b", "?b"}
+				s.Text = strings.Replace(s.Text, "INTO ?b ", "INTO ?b, ?b ", 1)
+			}
+			fixedBulk = 100
 		case *only != "":
 			s = VStmt{Kind: "text", Text: *only}
 		case i%10 == 5:
@@ -484,6 +539,57 @@ func main() {
 				r.Case, r.Prev, r.Reads = i, prev, reads
 				enc.Encode(r)
 			}
+		}
+		for _, id := range ids {
+			for _, f := range extraModes {
+				if id.Kind != "read" {
+					continue
+				}
+				r := oneRun(ctx, prefix, s, bulk, []SchedEntry{{id, f}}, b)
+				r.Case, r.Prev, r.Reads = i, prev, reads
+				enc.Encode(r)
+			}
+		}
+		// twin calls (same kind and graph, two goroutines): one fails at once, the other is slow and succeeds afterwards
+		if twins {
+			for _, x := range ids {
+				for _, y := range ids {
+					if x.Kind == y.Kind && x.Graph == y.Graph && x.Occ != y.Occ && (x.Kind == "add" || x.Kind == "remove" || x.Kind == "graph") {
+						for _, f := range []Fault{{Mode: "before"}, {Mode: "after", J: 1}} {
+							r := oneRun(ctx, prefix, s, bulk, []SchedEntry{{x, f}, {y, Fault{Mode: "delay"}}}, b)
+							r.Case, r.Prev, r.Reads = i, prev, reads
+							enc.Encode(r)
+						}
+					}
+				}
+			}
+		}
+		// joins under GOMAXPROCS 1: the per-row lookups of a clause share one processor
+		if s.Kind == "select" && strings.Contains(s.Text, " . ") {
+			old := runtime.GOMAXPROCS(1)
+			for _, id := range ids {
+				if id.Kind != "read" {
+					continue
+				}
+				for _, f := range []Fault{{Mode: "before"}, {Mode: "after", J: 1}} {
+					r := oneRun(ctx, prefix, s, bulk, []SchedEntry{{id, f}}, b)
+					r.Case, r.Prev, r.Reads, r.Procs = i, prev, reads, 1
+					enc.Encode(r)
+				}
+			}
+			// every lookup of the statement failing
+			var all []SchedEntry
+			for _, id := range ids {
+				if id.Kind == "read" {
+					all = append(all, SchedEntry{id, Fault{Mode: "before"}})
+				}
+			}
+			if len(all) > 0 {
+				r := oneRun(ctx, prefix, s, bulk, all, b)
+				r.Case, r.Prev, r.Reads, r.Procs = i, prev, reads, 1
+				enc.Encode(r)
+			}
+			runtime.GOMAXPROCS(old)
 		}
 		// two simultaneous failures
 		if len(ids) >= 2 {
